@@ -1773,6 +1773,10 @@ private:
             return;
         }
         int length = static_cast<int>(str.size());
+        if (length == 1 && str[0] == '0')
+        {
+            exponent = 0; // zero times any power of ten is zero (a positive exponent would pad the digit string to "00.0")
+        }
         if (length > 0)
         {
             if (str[0] == '-')
